@@ -37,6 +37,8 @@ for _f in sorted(glob.glob(os.path.join(os.path.dirname(os.path.abspath(__file__
 ENGINES = [
     {"name": "E1 clustersim", "path": "sim/sim", "serves_properties": ["C02"],
      "kind_free_text": "real rqlite nodes (store+raft+bbolt+SQLite+cluster service/client+proxy+mux) in one testing/synctest bubble over a simulated network; one event per scheduler step chosen by a seeded PRNG"},
+    {"name": "E2 crashsim (snapshot store)", "path": "sim/crash, sim/snapsim", "serves_properties": ["C07", "C08", "C09"],
+     "kind_free_text": "the real snapshot.Store / upgraders / plan executor driven sequentially by a stand-in for store.Store over a real SQLite history; a crash is a directory image taken inside the verifhook handler at the k-th hook occurrence (every occurrence enumerated, plus a second crash during each recovery run, plus derived torn states), restored at the same path and re-opened; restore-and-dump oracle and abstract catalog model"},
 ]
 
 NOT_APPLICABLE = {
